@@ -29,12 +29,14 @@ type Model struct {
 	HdrZ  map[string]string
 	Body  int // bytes the handler asked to send
 	Steps int
+	// CLLevel is the commit level at which Content-Length was declared (-1: never).
+	CLLevel int
 }
 
 // NewModel starts the model for a request version.
 func NewModel(version int) *Model {
 	v := Versions[version]
-	return &Model{Proto11: v.Proto11, ReqClose: v.Close, Hdr0: map[string]string{}, HdrZ: map[string]string{}}
+	return &Model{Proto11: v.Proto11, ReqClose: v.Close, Hdr0: map[string]string{}, HdrZ: map[string]string{}, CLLevel: -1}
 }
 
 func (m *Model) set(k, v string) {
@@ -58,6 +60,7 @@ func (m *Model) Apply(op Op) {
 	switch op.K {
 	case OpCL:
 		m.set("Content-Length", strconv.Itoa(op.N))
+		m.CLLevel = m.Level
 	case OpCT:
 		m.set("Content-Type", CTValue)
 	case OpTRD:
@@ -114,13 +117,19 @@ func (m *Model) Remaining() int {
 }
 
 // Dead reports that the handler already contradicted itself for good (no extension of the
-// program can be judged): more body than declared, or a body on a 204 response.
+// program can be judged): more body than declared, a body on a 204 response, or chunked framing /
+// trailers requested for a 204 response (no well-formed response can honour both choices).
 func (m *Model) Dead() string {
 	if cl := m.DeclaredCL(); cl >= 0 && m.Body > cl {
 		return "body exceeds declared Content-Length"
 	}
-	if m.Body > 0 && (m.Status == 204 || m.StatusAlt == 204) {
-		return "body written to a 204 response"
+	if m.Status == 204 || m.StatusAlt == 204 {
+		if m.Body > 0 {
+			return "body written to a 204 response"
+		}
+		if m.HdrZ["Trailer"] != "" || m.HdrZ["Transfer-Encoding"] != "" {
+			return "chunked framing or trailers requested on a 204 response"
+		}
 	}
 	return ""
 }
@@ -187,6 +196,26 @@ type Decoded struct {
 
 // Decode parses the wire bytes with net/http as the response to a GET request.
 func Decode(wire []byte, allowPatch10 bool) (*Decoded, error) {
+	return decodeInto(nil, wire, allowPatch10)
+}
+
+func readAllInto(buf []byte, r io.Reader) ([]byte, error) {
+	for {
+		if len(buf) == cap(buf) {
+			buf = append(buf, 0)[:len(buf)]
+		}
+		n, err := r.Read(buf[len(buf):cap(buf)])
+		buf = buf[:len(buf)+n]
+		if err != nil {
+			if err == io.EOF {
+				err = nil
+			}
+			return buf, err
+		}
+	}
+}
+
+func decodeInto(scratch *[]byte, wire []byte, allowPatch10 bool) (*Decoded, error) {
 	d := &Decoded{}
 	in := wire
 	if allowPatch10 && bytes.HasPrefix(in, []byte("HTTP/1.0 ")) {
@@ -206,13 +235,27 @@ func Decode(wire []byte, allowPatch10 bool) (*Decoded, error) {
 	}
 	d.Resp = resp
 	d.Chunked = len(resp.TransferEncoding) > 0 && resp.TransferEncoding[0] == "chunked"
-	d.Body, d.BodyErr = io.ReadAll(resp.Body)
+	if scratch != nil {
+		if cap(*scratch) < len(wire)+512 {
+			*scratch = make([]byte, 0, len(wire)+(256<<10))
+		}
+		d.Body, d.BodyErr = readAllInto((*scratch)[:0], resp.Body)
+		*scratch = d.Body[:0]
+	} else {
+		d.Body, d.BodyErr = io.ReadAll(resp.Body)
+	}
 	_ = resp.Body.Close()
 	d.Leftover = br.Buffered() + rd.Len()
 	return d, nil
 }
 
+// judgeScratch is the body buffer reused by Judge (cases are judged one at a time).
+var judgeScratch = new([]byte)
+
 func firstDiff(a, b []byte) int {
+	if bytes.Equal(a, b) {
+		return -1
+	}
 	n := len(a)
 	if len(b) < n {
 		n = len(b)
@@ -242,8 +285,9 @@ func snippet(b []byte, at, n int) string {
 
 // Judge is the independent oracle of C09 for a run without injected failures. It returns every
 // failed clause (empty: the program's response is what the property promises). partial: the
-// handler has not (yet) written the body it declared, so only the clauses that are decided at
-// the time of each operation (its return values, no panic) are evaluated, not the wire.
+// handler has not (yet) written the body it declared; the body that is on the wire is then
+// expected to end early (everything written so far, then EOF). Which of the clauses of a
+// partial program may be reported is decided by the caller (Node.judge).
 func Judge(m *Model, r *Result, partial bool) []Verdict {
 	var vs []Verdict
 	add := func(clause, format string, a ...interface{}) {
@@ -283,13 +327,10 @@ func Judge(m *Model, r *Result, partial bool) []Verdict {
 			off += op.N
 		}
 	}
-	if partial {
-		return vs
-	}
 	// the wire
 	trailerWanted := m.Hdr0["Trailer"] != ""
 	chunkAsked := trailerWanted || m.HdrZ["Trailer"] != "" || m.Hdr0["Transfer-Encoding"] != "" || m.HdrZ["Transfer-Encoding"] != ""
-	d, err := Decode(r.Wire, chunkAsked)
+	d, err := decodeInto(judgeScratch, r.Wire, chunkAsked)
 	if err != nil {
 		add("wire-unparseable", "http.ReadResponse: %v; wire starts %s", err, snippet(r.Wire, 0, 80))
 		return vs
@@ -345,38 +386,38 @@ func Judge(m *Model, r *Result, partial bool) []Verdict {
 	if trailerWanted && !d.Chunked && bodyAllowed {
 		add("framing-trailer-without-chunked", "handler declared a trailer, response is not chunked")
 	}
-	// body
-	if d.BodyErr != nil {
+	// body. An early EOF is not a clause of its own: what matters is which bytes arrived.
+	early := d.BodyErr == io.ErrUnexpectedEOF
+	if d.BodyErr != nil && !early {
 		add("body-undecodable", "reading the body: %v (decoded %d of %d bytes)", d.BodyErr, len(d.Body), m.Body)
 	}
 	want := Pat[:m.Body]
-	if i := firstDiff(d.Body, want); i >= 0 && d.BodyErr == nil {
+	if i := firstDiff(d.Body, want); i < 0 && early && !partial {
+		add("body-mismatch", "truncated: the head promises more body than the %d bytes the handler wrote and that arrived", len(want))
+	} else if i >= 0 && (d.BodyErr == nil || early) {
 		switch {
 		case len(d.Body) < len(want) && i == len(d.Body):
-			add("body-truncated", "decoded body has %d bytes, handler wrote %d", len(d.Body), len(want))
+			add("body-mismatch", "truncated: decoded body has %d bytes, handler wrote %d", len(d.Body), len(want))
 		case len(d.Body) > len(want) && i == len(want):
-			add("body-excess", "decoded body has %d bytes, handler wrote %d; excess starts %s", len(d.Body), len(want), snippet(d.Body, i+20, 40))
+			add("body-mismatch", "excess: decoded body has %d bytes, handler wrote %d; excess starts %s", len(d.Body), len(want), snippet(d.Body, i+20, 40))
 		default:
-			add("body-corrupt", "decoded body (%d bytes) differs from the written data (%d bytes) at offset %d: got %s want %s", len(d.Body), len(want), i, snippet(d.Body, i+10, 24), snippet(want, i+10, 24))
+			add("body-mismatch", "corrupt: decoded body (%d bytes) differs from the written data (%d bytes) at offset %d: got %s want %s", len(d.Body), len(want), i, snippet(d.Body, i+10, 24), snippet(want, i+10, 24))
 		}
 	}
 	if d.Leftover != 0 {
 		add("wire-leftover", "%d bytes follow the end of the response; they start %s", d.Leftover, snippet(r.Wire, len(r.Wire)-d.Leftover+30, 60))
 	}
 	// trailers
-	if trailerWanted && d.BodyErr == nil && bodyAllowed {
+	if trailerWanted && d.BodyErr == nil && bodyAllowed && !partial {
 		got := resp.Trailer.Values(TrailerKey)
 		wantV, set := m.HdrZ[TrailerKey]
 		switch {
 		case set && (len(got) != 1 || got[0] != wantV):
-			if v0, ok := m.Hdr0[TrailerKey]; ok && len(got) == 1 && got[0] == v0 {
-				add("trailer-stale-value", "trailer %s=%q on the wire, the handler's final value is %q", TrailerKey, got, wantV)
-			} else {
-				add("trailer-value-lost", "trailer %s=%q on the wire, handler set %q", TrailerKey, got, wantV)
-			}
+			add("trailer-final-value-lost", "trailer %s=%q on the wire, the value the handler left in the header map is %q", TrailerKey, got, wantV)
 		case !set && len(got) > 0 && !(len(got) == 1 && got[0] == ""):
 			add("trailer-invented", "trailer %s=%q on the wire, handler never set it", TrailerKey, got)
 		}
 	}
 	return vs
 }
+
